@@ -584,6 +584,25 @@ func (t *Table) Put(input *types.PutItemInput) (map[string]*types.Item, error) {
 	return item, nil
 }
 
+// ValidatePut checks that the item can be written: key attributes and index key attributes
+// are present with the declared types. Nothing is written.
+func (t *Table) ValidatePut(item map[string]*types.Item) error {
+	if _, err := t.KeySchema.GetKey(t.AttributesDef, item); err != nil {
+		return types.NewError("ValidationException", err.Error(), nil)
+	}
+
+	return t.validateIndexKeys(item)
+}
+
+// ValidateKey checks that the key attributes are present with the declared types
+func (t *Table) ValidateKey(key map[string]*types.Item) error {
+	if _, err := t.KeySchema.GetKey(t.AttributesDef, key); err != nil {
+		return types.NewError("ValidationException", err.Error(), nil)
+	}
+
+	return nil
+}
+
 func (t *Table) validateIndexKeys(item map[string]*types.Item) error {
 	for _, index := range t.Indexes {
 		if _, err := index.keySchema.GetKey(t.AttributesDef, item); err != nil {
